@@ -96,3 +96,29 @@ Require RV.Gen.Sites RV.Model.SiteMap RV.Proofs.SitesLits.
 Theorem C02_literals_reviewed : RV.Model.SiteMap.literals_ok RV.Model.SiteMap.files_C02.
 Proof. apply RV.Proofs.SitesLits.literals_okb_sound. vm_compute. reflexivity. Qed.
 Print Assumptions C02_literals_reviewed.
+
+(* ---- the fault RATE, proved: Grease::new and Grease::should_add_error AS TRANSLATED FROM THE SOURCE on
+   this run, over rand's Bernoulli as reflected from the compiled crate (Gen/Tables.v bernoulli_threshold,
+   found by bisection with a generator that returns a chosen value). A server configured with fault
+   percentage p corrupts a response exactly when the generator's next 64-bit output v is below the
+   threshold t(p); t(p) <= 2^64, t(0) = 0, and |t(p) / 2^64 - p / 100| < 2^18 / (100 * 2^64) < 2^-52:
+   the failing share over the generator's whole output range is p percent. What stays measured is that
+   SmallRng's outputs are uniform. ---- *)
+Require Import RV.Model.GenSupport RV.Gen.Code RV.Proofs.CodeGreaseRate.
+From Coq Require Import NArith ZArith.
+
+Theorem C02_translated_fault_decision :
+  forall p entropy v r,
+  gen_grease_new entropy p = Ok ((0 <? p)%N, (p, 100%N), entropy) /\
+  gen_should_add_error (0 <? p)%N (p, 100%N) (v :: r)
+  = Ok (if (0 <? p)%N then ((v <? bern_threshold (p, 100%N))%N, r) else (false, v :: r)).
+Proof. exact gen_fault_decision. Qed.
+Print Assumptions C02_translated_fault_decision.
+
+Theorem C02_fault_rate :
+  forall p, (p <= 100)%N ->
+  let t := bern_threshold (p, 100%N) in
+  (t <= two64)%N /\ (p = 0%N -> t = 0%N) /\
+  (Z.abs (Z.of_N t * 100 - Z.of_N p * Z.of_N two64) < 262144)%Z.
+Proof. exact fault_rate. Qed.
+Print Assumptions C02_fault_rate.
